@@ -1681,7 +1681,16 @@ func TestVerifBoundedFaithful(t *testing.T) {
 	bound := os.Getenv("VERIF_BOUND")
 	thorough := bound == "2"
 	seed, _ := strconv.ParseInt(os.Getenv("VERIF_SEED"), 10, 64)
-	known := append(append([]vfKnown{}, knownDeviations...), vfKnownFromEnv()...)
+	// only the classes named in /verif/known_findings.json (passed through VERIF_KNOWN, "|"-separated names) are
+	// active; the table above merely defines how a class is recognised
+	var known []vfKnown
+	for _, name := range strings.Split(os.Getenv("VERIF_KNOWN"), "|") {
+		for _, k := range knownDeviations {
+			if k.name == strings.TrimSpace(name) {
+				known = append(known, k)
+			}
+		}
+	}
 
 	var jobs []vfJob
 	var setupFailures []string
@@ -2000,6 +2009,7 @@ func TestVerifBoundedFaithful(t *testing.T) {
 
 	// ---- merge (by job index: independent of scheduling and of VERIF_SEED)
 	var failures, knownSeen []string
+	knownHitsByClass := map[string]int{}
 	cases, accepted, knownCount, failureCount := 0, 0, 0, 0
 	perSection := map[string]int{}
 	if timedOut {
@@ -2024,6 +2034,7 @@ func TestVerifBoundedFaithful(t *testing.T) {
 				}
 				if isKnown != "" {
 					knownCount++
+					knownHitsByClass[isKnown]++
 					if len(knownSeen) < 5 {
 						knownSeen = append(knownSeen, isKnown+": "+desc)
 					}
@@ -2057,7 +2068,7 @@ func TestVerifBoundedFaithful(t *testing.T) {
 		map[bool]string{false: "1", true: "2"}[thorough], len(fixtures), len(vfExtraQueries), maxAtoms, len(boolQs), len(arithQs), len(chainQs), len(strQs), len(s5)+len(s5a), len(s3), len(sample), len(vfRangeQueries), strings.Join(sections, ", "))
 	out, _ := json.Marshal(map[string]any{
 		"name": "faithful", "bound": boundText, "cases": cases, "accepted": accepted, "exhaustive": true,
-		"failures": failures, "failure_count": failureCount, "known_deviations": knownCount, "known_deviations_observed": knownSeen,
+		"failures": failures, "failure_count": failureCount, "known_deviations": knownCount, "known_deviation_hits": knownHitsByClass, "known_deviations_observed": knownSeen,
 	})
 	fmt.Println("BOUNDED-RESULT " + string(out))
 	if failureCount > 0 {
